@@ -91,6 +91,8 @@ package server
 //@   ensures [legend] result0 >= 0 && result0 <= 12
 //@   ensures [C17:line_structure_unmapped] t == 1 || t == 2 || t == 0 ==> !result1
 //@   ensures [C17:code_commodity] result1 ==> ((result0 == 7) <==> (t == 5)) && ((result0 == 1) <==> (t == 9))
+//@   ensures [C17:date_kind] t == 3 ==> result1 && result0 == 3
+//@   ensures [C17:payee_kind_not_mapped] result1 ==> result0 != 2
 
 //@ specdef prevLine(ts []semanticToken, i int) int := ite(i > 0, ts[i - 1].line, 0)
 //@ specdef prevCol(ts []semanticToken, i int) int := ite(i > 0, ts[i - 1].col, 0)
